@@ -1,0 +1,50 @@
+//go:build verif
+
+package metrics
+
+// Contracts for the govc verifier (see /verif/DESIGN.md). Comment-only: declares nothing.
+
+// ---- C11: per-state task gauges ---------------------------------------------------------------
+//@ lockonly TaskNumMetric.numLock protects TaskNumMetric.initialTaskMap, TaskNumMetric.runningTaskMap, TaskNumMetric.pauseTaskMap
+
+// three distinct, existing sets; every task id is in at most one of them
+//@ spec wfGauges(t *TaskNumMetric) bool = t != nil && t.initialTaskMap != nil && t.runningTaskMap != nil && t.pauseTaskMap != nil && t.initialTaskMap != t.runningTaskMap && t.initialTaskMap != t.pauseTaskMap && t.runningTaskMap != t.pauseTaskMap
+//@ spec inSet(t *TaskNumMetric, s meta.TaskState, id string) bool = (s == meta.TaskStateInitial && id in t.initialTaskMap) || (s == meta.TaskStateRunning && id in t.runningTaskMap) || (s == meta.TaskStatePaused && id in t.pauseTaskMap)
+//@ spec atMostOne(t *TaskNumMetric) bool = forall id string :: !(id in t.initialTaskMap && id in t.runningTaskMap) && !(id in t.initialTaskMap && id in t.pauseTaskMap) && !(id in t.runningTaskMap && id in t.pauseTaskMap)
+//@ spec validState(s meta.TaskState) bool = s == meta.TaskStateInitial || s == meta.TaskStateRunning || s == meta.TaskStatePaused
+
+//@ func (*TaskNumMetric).getStateMap
+//@   props C11
+//@   requires t != nil && rlocked(t.numLock)
+//@   ensures result == ite(state == meta.TaskStateInitial, t.initialTaskMap, ite(state == meta.TaskStateRunning, t.runningTaskMap, ite(state == meta.TaskStatePaused, t.pauseTaskMap, nil)))
+//@   modifies nothing
+//@   panics never
+
+//@ func (*TaskNumMetric).UpdateState
+//@   props C11
+//@   assumes wfGauges(t) && atMostOne(t)
+//@   ensures [moved-iff-it-was-counted-under-the-old-state] old(inSet(t, oldStates, taskID)) && validState(newState) ==> inSet(t, newState, taskID) && (oldStates != newState ==> !inSet(t, oldStates, taskID))
+//@   ensures [not-counted-means-no-change] !old(inSet(t, oldStates, taskID)) ==> (forall id string, s meta.TaskState :: inSet(t, s, id) == old(inSet(t, s, id)))
+//@   ensures [other-tasks-untouched] forall id string, s meta.TaskState :: id != taskID ==> inSet(t, s, id) == old(inSet(t, s, id))
+//@   ensures [still-at-most-one-set] atMostOne(t) && wfGauges(t)
+//@   modifies t.initialTaskMap[*], t.runningTaskMap[*], t.pauseTaskMap[*]
+//@   panics never
+
+//@ func (*TaskNumMetric).Add
+//@   props C11
+//@   assumes wfGauges(t) && atMostOne(t)
+//@   assumes forall s meta.TaskState :: !inSet(t, s, taskID)
+//@   ensures [counted-under-its-state] validState(state) ==> inSet(t, state, taskID)
+//@   ensures [other-tasks-untouched] forall id string, s meta.TaskState :: id != taskID ==> inSet(t, s, id) == old(inSet(t, s, id))
+//@   ensures [still-at-most-one-set] atMostOne(t) && wfGauges(t)
+//@   modifies t.initialTaskMap[*], t.runningTaskMap[*], t.pauseTaskMap[*]
+//@   panics never
+
+//@ func (*TaskNumMetric).Delete
+//@   props C11
+//@   assumes wfGauges(t) && atMostOne(t)
+//@   ensures [no-longer-counted-under-that-state] !inSet(t, state, taskID)
+//@   ensures [other-tasks-untouched] forall id string, s meta.TaskState :: id != taskID ==> inSet(t, s, id) == old(inSet(t, s, id))
+//@   ensures [still-at-most-one-set] atMostOne(t) && wfGauges(t)
+//@   modifies t.initialTaskMap[*], t.runningTaskMap[*], t.pauseTaskMap[*]
+//@   panics never
